@@ -17,6 +17,7 @@ import PCV.Model.DrvC15
 import PCV.Model.DrvC16
 import PCV.Model.DrvC18
 import PCV.Model.DrvC19
+import PCV.Model.DrvDefault
 namespace PCV
 namespace Driver
 
@@ -79,7 +80,7 @@ def handle (p : Nat) (r : Req) : String :=
       let ext : List (Option (Except String String)) :=
         [DrvMarlin.handle p r, DrvSonic.handle p r, DrvIPA.handle p r, DrvHyrax.handle p r,
          DrvLinCode.handle p r, DrvMLPC.handle p r, DrvC12.handle p r, DrvC13.handle p r, DrvC14.handle p r, DrvC15.handle p r,
-         DrvC16.handle p r, DrvC18.handle p r, DrvC19.handle p r]
+         DrvC16.handle p r, DrvC18.handle p r, DrvC19.handle p r, DrvDefault.handle p r]
       match ext.findSome? id with
       | some x => x
       | none => .error "unknown-op"
